@@ -142,6 +142,11 @@ func verifHarness_C04_write_while_poller_reads_racy_fields_T() {
 	verifAssert(false, "witness")
 }
 
+func verifHarness_C04_sendfile_oneshot() {
+	verifC04(verifETOneshot, 2, 1+verifChoose("space", 2), 4, true, 1)
+	verifAssert(false, "witness")
+}
+
 func verifHarness_C04_sendfile_from_other_goroutine_T() {
 	verifC04(verifChoose("mode", 3), 2, 1+verifChoose("space", 2), 4, true, 2)
 	verifAssert(false, "witness")
